@@ -414,7 +414,7 @@ func checkExecution(sc scenario, ix *index.Hnsw, pre map[int]int, recs []rec) *e
 		for qi, q := range idxlib.Queries {
 			res, _ := ix.Search(context.Background(), q, 5)
 			if len(res) < min[qi] {
-				return &explore.Violation{Key: "quiescent-search-finds-less-than-after-any-sequential-order" + insertOverlapsRemove(recs), Desc: fmt.Sprintf("Search(%v,5) finds %d of the %d stored items; after every sequential order of the same operations it finds at least %d: %s", q, len(res), len(ref), min[qi], describe(recs))}
+				return &explore.Violation{Key: "quiescent-search-finds-less-than-after-any-sequential-order" + insertOverlapsRemove(recs) + ":" + strings.SplitN(sc.name, "-", 2)[0], Desc: fmt.Sprintf("Search(%v,5) finds %d of the %d stored items; after every sequential order of the same operations it finds at least %d: %s", q, len(res), len(ref), min[qi], describe(recs))}
 			}
 		}
 	}
